@@ -46,23 +46,95 @@ class calculate_cost_of_one_vertical_well(Contract):
         return {"adjusted_base_cost": r == s.well_cost_adjustment_factor * self.base_cost(s)}
 
 
+def _stub_model_nv(vertical, per_m_provided):
+    import logging
+    import types
+    from geophires_x.OptionList import Configuration
+    ns = types.SimpleNamespace
+    return ns(logger=logging.getLogger("pyvc-stub"),
+              wellbores=ns(Configuration=ns(value=Configuration.VERTICAL if vertical else Configuration.ULOOP)),
+              economics=ns(Nonvertical_drilling_cost_per_m=ns(Provided=per_m_provided)))
+
+
 @contract
 class calculate_cost_of_non_vertical_section(Contract):
+    """'wells including laterals': the lateral figure that enters the wellfield cost.  VERIFIED for every correlation x
+    (per-metre cost provided or not) x (vertical configuration or not); at call sites inside Economics.Calculate the
+    correlation is not enumerated and the result stays abstract (the roll-up clauses are over the reported figure)."""
     key = "geophires_x/Economics.py::calculate_cost_of_non_vertical_section"
-    property_ids = ()
+    property_ids = ("C03",)
     params = dict(model=Const(None), length_m=Real, well_correlation=Const(None), nonvertical_drilling_cost_per_m=Real,
                   num_nonvertical_sections=Int, fixed_well_cost_name=Const("name"), NonverticalsCased=Bool,
                   well_cost_adjustment_factor=Real)
     result = Real
+    inline_callees = ("geophires_x/OptionList.py::WellDrillingCostCorrelation.calculate_cost_MUSD",)
+
+    def configs(self):
+        from geophires_x.OptionList import WellDrillingCostCorrelation
+        out = [("vertical", {"well_correlation": WellDrillingCostCorrelation.VERTICAL_SMALL, "model": _stub_model_nv(True, False),
+                             "_vertical": True, "_provided": False})]
+        for c in WellDrillingCostCorrelation:
+            for prov in (False, True):
+                out.append((f"correlation={c.int_value},per_m_provided={prov}",
+                            {"well_correlation": c, "model": _stub_model_nv(False, prov), "_vertical": False,
+                             "_provided": prov}))
+        return out
+
+    def requires(self, s):
+        if s.well_correlation.val is None:
+            return {}
+        return {"at_least_one_section": s.num_nonvertical_sections >= 1}
+
+    def ensures(self, s, r):
+        from geophires_x.OptionList import WellDrillingCostCorrelation as W
+        c = s.well_correlation.val
+        if c is None:      # at a call site: correlation not enumerated, result left abstract
+            return {}
+        m = s.model.val
+        if m.wellbores.Configuration.value.name == "VERTICAL":
+            return {"no_lateral_cost_for_a_vertical_configuration": r == 0.0}
+        n = ToReal(s.num_nonvertical_sections)
+        per = s.length_m / n
+        casing = If(s.NonverticalsCased, 1.0, 0.5)
+        simple = n * s.nonvertical_drilling_cost_per_m * per * 1E-6
+        if c is W.SIMPLE or m.economics.Nonvertical_drilling_cost_per_m.Provided:
+            base = simple
+        else:
+            quad = n * ((c._c2 * per ** 2 + c._c1 * per + c._c0) * 1E-6)
+            base = If(per < 500.0, simple, quad)
+        return {"lateral_cost_is_sections_times_cost_per_section_with_casing_and_adjustment":
+                r == s.well_cost_adjustment_factor * (casing * base)}
 
 
 @contract
 class calculate_total_drilling_lengths_m(Contract):
+    """'total drilled length by configuration' (C03 mechanism): VERIFIED per configuration - the vertical, lateral and
+    junction lengths and their total; sin is uninterpreted (A3) and appears only in the Eavor-loop geometry."""
     key = "geophires_x/WellBores.py::calculate_total_drilling_lengths_m"
-    property_ids = ()
+    property_ids = ("C03",)
     params = dict(Configuration=Const(None), numnonverticalsections=Int, nonvertical_length_km=Real,
                   InputDepth_km=Real, OutputDepth_km=Real, nprod=Int, ninj=Int, junction_depth_km=Real, angle_rad=Real)
     result = (Real, Real, Real, Real)
+
+    def configs(self):
+        from geophires_x.OptionList import Configuration
+        return [(f"configuration={c.name}", {"Configuration": c}) for c in Configuration]
+
+    def ensures(self, s, r):
+        c = s.Configuration.val
+        if c is None:      # at a call site the configuration is not enumerated: lengths stay abstract
+            return {}
+        tot, vert, lat, junc = r
+        nsec = ToReal(s.numnonverticalsections)
+        both = ToReal(s.nprod + s.ninj) * s.InputDepth_km * 1000.0
+        laterals = nsec * s.nonvertical_length_km * 1000.0
+        sin = Uf("sin", s.angle_rad)
+        spec = {"ULOOP": (ToReal(s.nprod) * s.InputDepth_km * 1000.0 + ToReal(s.ninj) * s.OutputDepth_km * 1000.0, laterals, 0.0),
+                "COAXIAL": (both, laterals, 0.0), "VERTICAL": (both, 0.0, 0.0), "L": (both, laterals, 0.0),
+                "EAVORLOOP": (both, ((s.OutputDepth_km - s.junction_depth_km) * 1000.0 / sin) * 2 * nsec,
+                              ((s.junction_depth_km - s.InputDepth_km) * 1000.0 / sin) * 2)}[c.name]
+        return {"vertical_length": vert == spec[0], "lateral_length": lat == spec[1], "junction_length": junc == spec[2],
+                "total_is_sum_of_sections": tot == vert + lat + junc}
 
 
 # ------------------------------------------------------------------ Economics.Calculate
@@ -92,9 +164,10 @@ class EconomicsCalculate(Contract):
         "duration indexes past the price array), construction years >= 1, lifetime >= 1, every annual series has one "
         "entry per operating year",
         "pint unit conversions inside Economics.Calculate use the real registry's factors (A3)",
-        "ASSUMED contracts on dependencies (not verified, no clause beyond the result type): "
-        "calculate_cost_of_non_vertical_section returns a real, calculate_total_drilling_lengths_m returns reals - the "
-        "lateral-section cost and drilled lengths are 'whatever the code computes' in the roll-up clauses",
+        "calculate_cost_of_non_vertical_section and calculate_total_drilling_lengths_m are verified per correlation / "
+        "configuration in their own units; at their call sites inside Economics.Calculate the correlation and the "
+        "configuration are not enumerated, so there the lateral-section cost and drilled lengths are 'whatever the code "
+        "computes' and the roll-up clauses are stated over the reported figures",
     )
 
     def configs(self):
